@@ -912,14 +912,32 @@ class Frame:
         return self.binop(n.op, self.ex(n.left), self.ex(n.right), n)
 
     def ex_BoolOp(self, n):
+        # python semantics: `a or b` is a if a is truthy else b (the operand itself, not a boolean); `a and b` is a if a is falsy else b
         isand = isinstance(n.op, ast.And)
-        vs = []
-        for v in n.values:
-            t = self.fold(self.ex(v))
-            if t == (FALSE if isand else TRUE):
-                return t                       # short circuit: later operands not evaluated
-            vs.append(t)
-        return T.and_(vs) if isand else T.or_(vs)
+        decisive, neutral = (FALSE, TRUE) if isand else (TRUE, FALSE)
+        pend = []                                  # operands whose truth value is not known on this path: (value, truth term)
+        last = None
+        for i, v in enumerate(n.values):
+            raw = self.ex(v)
+            t = self.fold(raw)
+            last = (raw, t)
+            if t == decisive:
+                break                              # short circuit: later operands not evaluated
+            if t == neutral:
+                continue
+            pend.append((raw, t))
+        raw, t = last
+        if not pend:
+            return raw if not _boolish(raw) else t
+        if pend[-1] == last:
+            pend = pend[:-1]
+        if all(_boolish(r) for r, _ in pend + [last]):
+            vs = [tt for _, tt in pend] + [t]
+            return T.and_(vs) if isand else T.or_(vs)
+        out = raw
+        for r, tt in reversed(pend):
+            out = T.gamma(tt, out, r) if isand else T.gamma(tt, r, out)
+        return out
 
     def ex_Compare(self, n):
         left = self.ex(n.left)
@@ -1282,6 +1300,11 @@ def _read_before_write(body, targets=()):
                     if x.func.value.id not in written:
                         live.add(x.func.value.id)
     return live
+
+
+def _boolish(t):
+    return t in (TRUE, FALSE) or t[0] in ('cmp', 'cmp0', 'and', 'or', 'not', 'isinstance', 'strtest', 'band', 'bor', 'binv') or \
+        (t[0] == 'call' and t[1] in ('any', 'all', 'isnan', 'isfinite', 'isinstance', 'callable', 'hasattr'))
 
 
 def _alias_pairs(target, it):
